@@ -10,4 +10,5 @@ void registerAll()
     reg_lauth();
     reg_slot();
     reg_fs();
+    reg_proxy();
 }
